@@ -32,6 +32,14 @@ STRENGTH = {
  "C08-5": "layout kind 'tlvwalk' for Type 1/2: NDEF message TLV placed so that tag, length field or value end around the last byte of the data area, both length formats, judged against an independent reading (checks/c08.py)",
  "C12-5": "the card model may send several S(WTX) requests in a row before a block (dsim/w1/t4t.py wtx_repeat, checks/c12.py)",
  "C16-5": "error bursts that start with one kind of error and persist as another one: the reason code must be the one of the error that persists (checks/c16.py)",
+ "C01-6": "Type 1 Tags with 2048 byte memory (sixteen segments) are generated in the quick tier too (dsim/w1/gen.py)",
+ "C08-6": "layout kind 'valid' for Type 1/2 (well-formed layouts incl. Lock Control TLVs with size byte 00h = 256 bits): what tag.ndef returns must equal the independent reading (checks/c08.py, dsim/w1/gen.py)",
+ "C09-6": "termination cause 'encode': an application thread queues a PDU the link loop cannot encode (service name of 300 octets) (checks/c09.py)",
+ "C13-6": "InDataExchange status bytes whose flag bits 7/6 are set together with an error code are judged by the error code (checks/c13.py)",
+ "C15-6": "fault kind keyboard_interrupt_in_sleep: app0 plays the main thread, a Ctrl-C may end any sleep it does inside the frontend (dsim/kernel.py sleep_interrupt seam, checks/c15.py)",
+ "C16-6": "operations auth_ndef_read / auth_ndef_write / auth_dump: NDEF and dump paths of an authenticated vendor tag object (checks/c16.py)",
+ "C18-6": "on-startup returning a new, shorter target list: only what it returned may be polled for (checks/c18.py)",
+ "C20-6": "replay step: a tag without the key that replays the answers recorded during a first authentication must be refused by a second authenticate() on the same Tag object (checks/c20.py)",
  "C20-4": "the NTAG21x model answers a wrong password with a NAK code drawn per run (0h, 1h, 4h, 5h) and a wrong password whose PACK ends in that code is tried (dsim/w1/t2t.py, checks/c20.py)",
 }
 rows = []
